@@ -72,9 +72,12 @@ ASSUMPTIONS = [
     'bytes that are not a well-formed data message after a close frame are not judged (only data messages are named by the statement)',
     'the client endpoint answers a close with an UNMASKED close frame (b"\\x88\\x00"); RFC 6455 5.1 forbids that but the statement does not '
     'mention it: accepted, reported as an observation (probe client-close-frame-unmasked)',
-    'unsolicited pongs and pongs with other payloads are accepted; only "each ping has a pong with its payload" is demanded',
-    'on the client side the peer sends its first frames only after the client\'s first own message has arrived unless the run draws "early" '
-    '(frames in the same segment as / right behind the 101 response), which is judged the same way',
+    'unsolicited pongs, pongs in another order and pongs with other payloads are accepted; only "each ping sent before a close has a pong '
+    'with its payload" is demanded (pings of messages in flight during a closing handshake are not judged)',
+    'client endpoint: the application writes only after the codec has registered on the ws channel (`registered` event = upgrade complete); '
+    'in "early" runs the simulated server sends frames in the same segment as / right behind its 101 response, which RFC 6455 allows',
+    'a violation is named after the first read boundary that split a header field if there was one (every such boundary raises in the '
+    'pinned tree), otherwise after the clause and shape of the symptom',
     'no transient/fatal send errors or resets are injected (C11/C12)',
 ]
 PROBES = ['side:server', 'side:client', 'cut:inside-2-byte-header', 'cut:extended-length', 'cut:masking-key', 'cut:payload-start',
@@ -231,8 +234,8 @@ def _run(ctx, side):
                 return K_CUT_HDR
             if cls == 'extended-length':
                 return K_CUT_EXT
-        if st['early_ping'] and key in ('C17/encode/message-nobody-wrote', 'C17/ping/pong-payload-differs/stand-alone-ping', K_PING_FRAG):
-            return K_PING_EARLY        # the codec answered from its constructor, before it had a parent to write to
+        if st['early_ping'] and (key.startswith('C17/encode/') or key.startswith('C17/ping/')):
+            return K_PING_EARLY        # the codec answered from its constructor, before it had a parent to write to: pong sent as a data message
         if st['ping_while_closing'] and key.startswith('C17/decode/'):
             return K_PING_CLOSING      # _parse_messages returns None for a ping once the close frame was sent
         return key
@@ -380,11 +383,11 @@ def _run(ctx, side):
         kind = 'text' if ch.draw(2, 'kind') == 0 else 'binary'
         n = draw_len()
         payload = text_payload(n, ch.draw(5, 'salt')) if kind == 'text' else binary_payload(n, ch.draw(200, 'salt'))
-        nfrag = ch.weighted([5, 3, 2, 1], 'fragments') + 1
+        nfrag = ch.weighted([2, 3, 3, 2] if closing else [5, 3, 2, 1], 'fragments') + 1
         cuts = sorted(ch.draw(n + 1, 'fragment-at') for _ in range(nfrag - 1))
         inter = {}
         for k in range(1, nfrag):
-            c = ch.weighted([5, 3, 1, 1], 'interleave')
+            c = ch.weighted([2, 5, 1, 2] if closing else [5, 3, 1, 1], 'interleave')
             if c in (1, 3) and no_ping_now(closing):
                 c = 2
             if c == 1 and K_PING_FRAG not in avoid:
@@ -708,7 +711,9 @@ def _run(ctx, side):
             quiesce()
             if ch.draw(2, 'data-after-close') and not st['viol'] and not peer.eof:
                 ctx.stat('traffic-after-close')
-                do_peer_message(optional=True)       # in flight when the close arrived: may or may not be delivered
+                for _ in range(ch.randint(1, 2, 'in-flight')):
+                    if not st['viol']:
+                        do_peer_message(optional=True)       # in flight when the close arrived: may or may not be delivered
                 pace()
             if ch.draw(2, 'write-after-close') and not st['viol']:
                 ctx.stat('traffic-after-close')
@@ -737,16 +742,22 @@ def _run(ctx, side):
             fail(blame('C17/decode/message-never-delivered'), 'at quiescence %d of %d messages were delivered; first missing: #%d %s %d bytes' % (
                 len(got), len(must), len(got), e[0], len(e[1])))
     if not st['viol']:
-        # [ping] pings sent before any close frame of either side must have been answered with their payload
+        # [ping] every ping sent before a close frame must have been answered by a pong with the same payload (any order is accepted,
+        # extra pongs too); the violation is named after the first ping whose pong, taken in order, differs
         pongs = [e[1] for e in dec.events if e[0] == 'pong']
-        for cp, infrag in pings:
-            if cp in pongs:
-                pongs.remove(cp)
+        left = list(pongs)
+        unanswered = 0
+        for cp, _ in pings:
+            if cp in left:
+                left.remove(cp)
             else:
-                key = K_PING_FRAG if infrag else 'C17/ping/pong-payload-differs/stand-alone-ping'
-                fail(blame(key), 'ping with payload %r... (%d bytes%s) has no pong with the same payload; pongs received: %r' % (
-                    cp[:12], len(cp), ', sent between the fragments of a message' if infrag else '', [(len(e[1]), e[1][:12]) for e in dec.events if e[0] == 'pong'][:6]))
-                break
+                unanswered += 1
+        if unanswered:
+            bad = next((i for i, (cp, _) in enumerate(pings) if i >= len(pongs) or pongs[i] != cp), 0)
+            cp, infrag = pings[bad]
+            fail(blame(K_PING_FRAG if infrag else 'C17/ping/pong-payload-differs/stand-alone-ping'),
+                 'ping #%d with payload %r... (%d bytes%s) has no pong with the same payload; pongs received: %r' % (
+                     bad, cp[:12], len(cp), ', sent between the fragments of a message' if infrag else '', [(len(x), x[:12]) for x in pongs][:6]))
     if not st['viol']:
         data_msgs = [e for e in dec.events if e[0] in ('text', 'binary')]
         if len(data_msgs) < len(written):
